@@ -70,6 +70,7 @@ def evb_obligation(mode, prefix, final, cb=0, final_max=8, extra_defs=(), ndebug
     defs += list(extra_defs)
     # loop bounds: payload copy loops run over at most everything stored (+ the final op), model loops are constant-bound
     copy = max(total + final_max, 24) + 2
+    if fk in SEARCHERS: copy = total + 3          # byte scans/compares never look at more than the stored bytes (+ NUL of readln)
     # freeing a multicast chain re-enters evbuffer_chain_free/evbuffer_decref_and_unlock_ once (parent chain, source buffer)
     # library chain walks: at most (chains the prefix can have created) + the final operation's own, + 1 for the exit test
     created = sum({"ADD": 1, "PREPEND": 1, "REF": 1, "EXPAND": 1, "RESERVE_COMMIT": 1, "RESERVE_COMMIT2": 2, "RESERVE_ONLY": 1, "ADD_IOVEC": 2, "MCAST": 2, "ADDBUFREF": 2}.get(k, 0) for _, k, _ in prefix)
@@ -100,6 +101,9 @@ MODEL_LOOPS = (["vpb_init.0", "vpb_copy.0", "vpb_equal.0", "vpb_append.0", "vpb_
                 "vpb_search.0", "vpb_search.1", "vpb_eol.0", "vpb_eol.1", "vp_compare.0", "vp_compare_all.0", "vp_evb_flatten.0", "vp_evb_flatten.1",
                 "vp_bytes.0"] + ["harness_evbuffer.%d" % i for i in range(6)] + ["vp_finish.%d" % i for i in range(5)] +
                ["op_%s.%d" % (f, i) for f in ("remove", "copyout", "pullup", "reserve_commit", "readln", "peek", "search", "search_eol", "add_iovec") for i in range(4)])
+SEARCH_LOOPS = ["evbuffer_search_range.%d" % i for i in range(7)] + ["evbuffer_search_eol.%d" % i for i in range(8)] + \
+               ["evbuffer_ptr_memcmp.%d" % i for i in range(4)] + ["evbuffer_readln.%d" % i for i in range(5)] + ["evbuffer_ptr_set.%d" % i for i in range(10)] + \
+               ["evbuffer_ptr_subtract.%d" % i for i in range(3)]
 COPY_LOOPS = ["vp_memcpy.0", "vp_memmove.0", "vp_memmove.1", "vp_memchr.0", "vp_memcmp.0", "find_eol_char.0",
               "evbuffer_strspn.0", "evbuffer_strspn.1", "evbuffer_strspn.2", "evbuffer_strchr.0", "evbuffer_find_eol_char.0"]
 HARNESS_CHAIN_LOOPS = ["vp_evb_check.0", "vp_evb_nchains.0", "vp_evb_byte.0", "vp_evb_count_flag.0", "vp_run_deferred.0",
@@ -107,12 +111,13 @@ HARNESS_CHAIN_LOOPS = ["vp_evb_check.0", "vp_evb_nchains.0", "vp_evb_byte.0", "v
                       ["evbuffer_run_callbacks.%d" % i for i in range(4)] + ["evbuffer_remove_all_callbacks.%d" % i for i in range(3)]      # own concrete counters (<= 6 chains / 3 slots)
 def evb_unwindset(copy, rec=1):
     return (["%s:8" % l for l in HARNESS_CHAIN_LOOPS] +["evbuffer_chain_free:%d" % rec, "evbuffer_decref_and_unlock_:%d" % rec, "evbuffer_file_segment_free:1"] +
-            ["%s:%d" % (l, 130) for l in MODEL_LOOPS] + ["%s:%d" % (l, copy) for l in COPY_LOOPS])
+            ["%s:%d" % (l, 130) for l in MODEL_LOOPS] + ["%s:%d" % (l, copy) for l in COPY_LOOPS] + ["%s:%d" % (l, 5 if l.startswith("evbuffer_ptr_memcmp") else 12) for l in SEARCH_LOOPS])
 
 # ---------------------------------------------------------------------------------------------------------------
 # enumeration of prefixes x final operations
 ADDERS = ["ADD", "PREPEND", "REF", "EXPAND", "RESERVE_COMMIT", "RESERVE_COMMIT2", "ADD_IOVEC"]      # primary argument: size added
 TAKERS = ["DRAIN", "REMOVE", "COPYOUT", "COPYOUT_FROM", "PULLUP", "PTR_SET", "PEEK"]              # primary: length / position
+SEARCHERS = ["SEARCH", "SEARCH_RANGE", "SEARCH_EOL", "READLN"]   # reduced form: small multi-chain buffers, needle length 1..2, positions case-split
 FINALS_1 = ADDERS + TAKERS
 FINALS_2 = ["ADDBUF", "PREPENDBUF", "REMOVEBUF", "ADDBUFREF"]                                     # A <- B
 ADD_SPLIT = 18          # adders: every size 0..18 (crosses the 16-byte chain capacity from any fill level)
@@ -125,6 +130,11 @@ def split_bound(prefix, final):
     if fk == "ADD_IOVEC": return 4 * 13 - 1                      # len0 0..12 x len1 0..3 (n = 4*len0 + len1)
     if fk in ADDERS: return ADD_SPLIT
     if fk == "REMOVEBUF": return stored(prefix, 1 - ft) + 1      # bytes in the source buffer + 1 ("more than stored")
+    L = stored(prefix)
+    if fk == "SEARCH": return L + 2
+    if fk == "SEARCH_RANGE": return (L + 2) * (L + 2) - 1
+    if fk == "SEARCH_EOL": return 5 * (L + 2) + 4
+    if fk == "READLN": return 4
     if fk in TAKERS: return stored(prefix) + 1
     return None                                                  # no size argument (add_buffer & co): nothing to split
 
@@ -132,6 +142,7 @@ def evb_split(mode, prefix, final, **kw):
     """case-split encoding of the final step (see harness: VP_SPLIT); identical claim, sizes 0..bound"""
     b = split_bound(prefix, final)
     extra = list(kw.pop("extra_defs", []))
+    if final[1] in SEARCHERS: extra.append("VP_G3_LEN=%d" % stored(prefix))
     if b is not None:
         extra.append("VP_SPLIT=%d" % b)
         kw.setdefault("desc_extra", "")
@@ -155,6 +166,7 @@ def effect_reachable(prefix, final):
     if fk in ("PREPEND",): return not fz_s[ft]
     if fk in ADDERS: return not fz_e[ft]
     if fk in ("PTR_SET", "PEEK"): return True
+    if fk in SEARCHERS: return have(ft) and not (fk == "READLN" and fz_s[ft])
     if fk in TAKERS: return have(ft) and not fz_s[ft]
     if fk in ("ADDBUF", "REMOVEBUF"): return have(1 - ft) and not fz_e[ft] and not fz_s[1 - ft]
     if fk == "PREPENDBUF": return have(1 - ft) and not fz_s[ft] and not fz_s[1 - ft]
